@@ -5,7 +5,8 @@
 From AB Require Export Prelude.
 From Coq Require Export FMapPositive.
 
-Record tokrec := mktok { t_text : str; t_size : pos; t_handle : option (positive * Z) }.
+(* store_handle = _StoreHandle(block, index); the first component is the identity of block.store *)
+Record tokrec := mktok { t_text : str; t_size : pos; t_handle : option (positive * positive * Z) }.
 Record blk := mkblk { b_index : Z; b_toks : list positive; b_size : pos; b_lnl : Z }.
 Definition tok0 := mktok [] pos0 None.
 Definition blk0 := mkblk 0 [] pos0 (-1).
@@ -14,6 +15,7 @@ Definition tokmap := PositiveMap.t tokrec.
 Definition heap := PositiveMap.t blk.
 
 Record store := mkstore {
+  s_id : positive;            (* identity of this TokenStore object (`block.store is self`) *)
   s_blocks : list positive;   (* TokenStore._blocks, as block ids *)
   s_heap : heap;
   s_toks : tokmap;
@@ -25,13 +27,13 @@ Definition tget (tk : tokmap) (t : positive) : tokrec :=
   match PositiveMap.find t tk with Some r => r | None => tok0 end.
 Definition bget (h : heap) (b : positive) : blk :=
   match PositiveMap.find b h with Some r => r | None => blk0 end.
-Definition tset_handle (tk : tokmap) (t : positive) (h : option (positive * Z)) : tokmap :=
+Definition tset_handle (tk : tokmap) (t : positive) (h : option (positive * positive * Z)) : tokmap :=
   let r := tget tk t in PositiveMap.add t (mktok (t_text r) (t_size r) h) tk.
 
-Definition with_heap (s : store) (h : heap) := mkstore (s_blocks s) h (s_toks s) (s_len s) (s_next s).
-Definition with_toks (s : store) (tk : tokmap) := mkstore (s_blocks s) (s_heap s) tk (s_len s) (s_next s).
-Definition with_blocks (s : store) (bs : list positive) := mkstore bs (s_heap s) (s_toks s) (s_len s) (s_next s).
-Definition with_len (s : store) (n : Z) := mkstore (s_blocks s) (s_heap s) (s_toks s) n (s_next s).
+Definition with_heap (s : store) (h : heap) := mkstore (s_id s) (s_blocks s) h (s_toks s) (s_len s) (s_next s).
+Definition with_toks (s : store) (tk : tokmap) := mkstore (s_id s) (s_blocks s) (s_heap s) tk (s_len s) (s_next s).
+Definition with_blocks (s : store) (bs : list positive) := mkstore (s_id s) bs (s_heap s) (s_toks s) (s_len s) (s_next s).
+Definition with_len (s : store) (n : Z) := mkstore (s_id s) (s_blocks s) (s_heap s) (s_toks s) n (s_next s).
 Definition set_blk (s : store) (b : positive) (r : blk) := with_heap s (PositiveMap.add b r (s_heap s)).
 
 (* the loop shared by _StoreBlock.from_tokens / rebuild / extend:
@@ -43,10 +45,10 @@ Fixpoint sizes_scan (tk : tokmap) (i : Z) (ts : list positive) (sz : pos) (lnl :
               sizes_scan tk (i + 1) r (pos_iadd sz z) (if line z =? 0 then lnl else i)
   end.
 (*   token.store_handle = _StoreHandle(block, i)   for i, token in enumerate(ts, start=i) *)
-Fixpoint rehandle (tk : tokmap) (b : positive) (i : Z) (ts : list positive) : tokmap :=
+Fixpoint rehandle (tk : tokmap) (sid b : positive) (i : Z) (ts : list positive) : tokmap :=
   match ts with
   | [] => tk
-  | t :: r => rehandle (tset_handle tk t (Some (b, i))) b (i + 1) r
+  | t :: r => rehandle (tset_handle tk t (Some (sid, b, i))) sid b (i + 1) r
   end.
 (*   token.store_handle = None   for token in ts *)
 Fixpoint unhandle (tk : tokmap) (ts : list positive) : tokmap :=
@@ -56,21 +58,21 @@ Fixpoint unhandle (tk : tokmap) (ts : list positive) : tokmap :=
 Definition new_block (s : store) (index : Z) (ts : list positive) : store * positive :=
   let b := s_next s in
   let '(sz, lnl) := sizes_scan (s_toks s) 0 ts pos0 (-1) in
-  (mkstore (s_blocks s) (PositiveMap.add b (mkblk index ts sz lnl) (s_heap s))
-           (rehandle (s_toks s) b 0 ts) (s_len s) (Pos.succ b), b).
+  (mkstore (s_id s) (s_blocks s) (PositiveMap.add b (mkblk index ts sz lnl) (s_heap s))
+           (rehandle (s_toks s) (s_id s) b 0 ts) (s_len s) (Pos.succ b), b).
 
 (* _StoreBlock(self, index, tokens): no handles are assigned, size/last_newline_index are the defaults *)
 Definition bare_block (s : store) (index : Z) (ts : list positive) : store * positive :=
   let b := s_next s in
-  (mkstore (s_blocks s) (PositiveMap.add b (mkblk index ts pos0 (-1)) (s_heap s))
+  (mkstore (s_id s) (s_blocks s) (PositiveMap.add b (mkblk index ts pos0 (-1)) (s_heap s))
            (s_toks s) (s_len s) (Pos.succ b), b).
 
 (* _StoreBlock.rebuild *)
 Definition rebuild (s : store) (b : positive) : store :=
   let r := bget (s_heap s) b in
   let '(sz, lnl) := sizes_scan (s_toks s) 0 (b_toks r) pos0 (-1) in
-  mkstore (s_blocks s) (PositiveMap.add b (mkblk (b_index r) (b_toks r) sz lnl) (s_heap s))
-          (rehandle (s_toks s) b 0 (b_toks r)) (s_len s) (s_next s).
+  mkstore (s_id s) (s_blocks s) (PositiveMap.add b (mkblk (b_index r) (b_toks r) sz lnl) (s_heap s))
+          (rehandle (s_toks s) (s_id s) b 0 (b_toks r)) (s_len s) (s_next s).
 
 Section WithLF.
 Variable LF : Z.
@@ -101,13 +103,13 @@ Fixpoint build_blocks (fuel : nat) (s : store) (start_index : Z) (ts : list posi
   else
     let '(s1, b) := new_block s start_index ts in (s1, Ok [b]).
 
-(* TokenStore() *)
-Definition empty_store (tk : tokmap) : store :=
-  mkstore [1%positive] (PositiveMap.add 1%positive blk0 (PositiveMap.empty blk)) tk 0 2%positive.
+(* TokenStore(): a new store object, identity sid *)
+Definition empty_store (sid : positive) (tk : tokmap) : store :=
+  mkstore sid [1%positive] (PositiveMap.add 1%positive blk0 (PositiveMap.empty blk)) tk 0 2%positive.
 
 (* TokenStore.from_tokens *)
-Definition from_tokens (tk : tokmap) (ts : list positive) : store * res unit :=
-  let s := empty_store tk in
+Definition from_tokens (sid : positive) (tk : tokmap) (ts : list positive) : store * res unit :=
+  let s := empty_store sid tk in
   if existsb (fun t => match t_handle (tget tk t) with Some _ => true | None => false end) ts
   then (s, Err ValueError)
   else match ts with
@@ -216,19 +218,23 @@ Definition pair_lt (a b : Z * Z) : bool :=
 Definition sum_lines (tk : tokmap) (ts : list positive) : Z :=
   fold_left (fun acc t => acc + line (t_size (tget tk t))) ts 0.
 
-(* _splice(tokens, start, end).  The reuse guard is
-     token.store_handle is not None and not (block.store is self and start <= (block.index, index) < end);
-   the model has a single store (every handle refers to this store's heap), so `block.store is self`
-   has no counterpart here. *)
+(* len({id(token) for token in tokens}) != len(tokens) *)
+Fixpoint has_dup (l : list positive) : bool :=
+  match l with [] => false | x :: r => existsb (Pos.eqb x) r || has_dup r end.
+
+(* _splice(tokens, start, end): `end < start` and a token listed twice are refused first; then the reuse guard
+     token.store_handle is not None and not (block.store is self and start <= (block.index, index) < end) *)
 Definition splice_ (s : store) (tokens : list positive) (st en : Z * Z) : store * res unit :=
   let '(start_i, start_j) := st in
   let '(end_i, end_j) := en in
-  if existsb (fun t =>
+  if pair_lt en st then (s, Err ValueError)
+  else if has_dup tokens then (s, Err ValueError)
+  else if existsb (fun t =>
        match t_handle (tget (s_toks s) t) with
        | None => false
-       | Some (hb, hi) =>
+       | Some (sid, hb, hi) =>
          let p := (b_index (bget (s_heap s) hb), hi) in
-         negb (pair_le st p && pair_lt p en)
+         negb (Pos.eqb sid (s_id s) && (pair_le st p && pair_lt p en))
        end) tokens
   then (s, Err ValueError)
   else if start_i =? end_i then
@@ -246,7 +252,7 @@ Definition splice_ (s : store) (tokens : list positive) (st en : Z * Z) : store 
       let '(s3, rr) :=
         if (n <? DOUBLE) && ((n >? HALF) || (zlen (s_blocks s2) =? 1)) && (b_lnl r >=? end_j) then
           let lines_diff2 := lines_diff + sum_lines (s_toks s2) tokens in
-          let tk := rehandle (s_toks s2) b start_j (zskipn start_j ntoks) in
+          let tk := rehandle (s_toks s2) (s_id s2) b start_j (zskipn start_j ntoks) in
           let r2 := bget (s_heap s2) b in
           (set_blk (with_toks s2 tk) b
              (mkblk (b_index r2) (b_toks r2)
@@ -286,8 +292,12 @@ Definition splice_ (s : store) (tokens : list positive) (st en : Z * Z) : store 
       end
     end.
 
+(* _check_store_handle(token, self): no handle, or a handle into another store, raise ValueError *)
 Definition check_handle (s : store) (t : positive) : res (positive * Z) :=
-  match t_handle (tget (s_toks s) t) with Some h => Ok h | None => Err ValueError end.
+  match t_handle (tget (s_toks s) t) with
+  | Some (sid, b, i) => if Pos.eqb sid (s_id s) then Ok (b, i) else Err ValueError
+  | None => Err ValueError
+  end.
 
 (* splice(tokens, ref, del_end) *)
 Definition splice (s : store) (tokens : list positive) (ref del_end : option positive)
@@ -369,8 +379,10 @@ Definition update (s : store) (t : positive) (size : pos) : store * res unit :=
 (* Token._update_raw_text(value) *)
 Definition set_text (s : store) (t : positive) (x : str) : store * res unit :=
   let size := token_size x in
+  (* if self.store_handle: self.store_handle.block.store.update(self, value, size) -- the token's own store;
+     for a token of another store that call is outside this one-store model and leaves this store alone *)
   let '(s1, rr) := match t_handle (tget (s_toks s) t) with
-                   | Some _ => update s t size
+                   | Some (sid, _, _) => if Pos.eqb sid (s_id s) then update s t size else (s, Ok tt)
                    | None => (s, Ok tt) end in
   match rr with
   | Err e => (s1, Err e)
